@@ -2,6 +2,7 @@ import Witverif.Proofs.AbiLower6
 import Witverif.Proofs.AbiLift3
 import Witverif.Proofs.AbiStore4
 import Witverif.Proofs.AbiLoad
+import Witverif.Proofs.AbiStoreA4
 /-!
 # C01 — Shared ABI generator encodes and decodes every WIT value per the spec
 
@@ -14,9 +15,10 @@ public entry point is compared, exactly, with the model's (`abi-trace` vs `m_abi
 Proved here for *all* memory-free types (any nesting of records, tuples, flags with any number of
 members, enums, variants/options/results with every slot join, fixed-length lists, all scalars and
 handles), all values, both pointer widths; lifting from memory (`load_correct`) is proved for *every*
-type, strings, lists and maps included.  Lowering strings, lists and maps (which allocates) is
-covered by the correspondence and the monitors on the real streams; those theorems are listed as
-partial obligations in the evidence.
+type, and so is lowering to memory (`store_correct_all`), strings, lists and maps included.  The flat
+lowering of strings, lists and maps (parameters passed flat; same allocating instructions, results
+consumed as operands) is covered by the correspondence and the monitors on the real streams and is
+listed as a partial obligation in the evidence.
 -/
 namespace Witverif.Props.C01
 open Witverif.Abi
@@ -86,6 +88,28 @@ theorem store_correct (p : Nat) (hp : p = 4 ∨ p = 8) (c : Cfg) (t : Ty) (v : V
     (lvl : Nat) (x a : Expr) (off : Off) (ss : List Stmt) (h : store c lvl t x a off = .ok ss) :
     Writes p lvl x a v ss (fun addr st => Spec.store p t v (addr + off.at p) st) :=
   store_sound p hp c v t hm hv lvl x a off ss h
+
+/-- **Lowering to memory is the spec's `store`, for every type** (strings, lists — canonical fast path
+and element-wise —, maps, and any nesting of them inside records, variants, fixed-length lists, …),
+every value of the type, both pointer widths, any backend configuration (`realloc: Some/None`,
+any canonical-list predicate).  Executing the statements emitted by `write_to_memory` — from ANY
+machine state, in any environment where `x` denotes `v` and `a` denotes `addr` — terminates, performs
+exactly the allocations `Spec.store` performs, in the same order with the same sizes and alignments
+(the final heaps are equal), leaves a memory that reads at every address exactly like the memory
+`Spec.store` produces (string bytes, element stride, entry layout, pointer and length words at
+`addr + offset` and `+ pointer size`), and touches neither the freed-blocks, the dropped-handles nor
+the calls ledger (`WritesA`, Proofs/AbiStoreA.lean). -/
+theorem store_correct_all (p : Nat) (hp : p = 4 ∨ p = 8) (c : Cfg) (t : Ty) (v : Val)
+    (hv : Spec.hasTy t v = true)
+    (lvl : Nat) (x a : Expr) (off : Off) (ss : List Stmt) (h : store c lvl t x a off = .ok ss) :
+    WritesA p lvl x a v ss (fun addr st => Spec.store p t v (addr + off.at p) st) :=
+  store_soundA p hp c v t hv lvl x a off ss h
+
+/-- Non-vacuity of `store_correct_all`: `record { a: string, b: list<u16> }` with `("hi", [1, 2])`. -/
+example :
+    Spec.hasTy (.record [.string, .list .u16]) (.record [.str [104, 105], .list [.int 1, .int 2]]) = true ∧
+    ∃ ss, store ⟨fun _ => false, true⟩ 0 (.record [.string, .list .u16]) (.inp 0) (.inp 1) Off.zero = .ok ss :=
+  ⟨by decide, ⟨_, rfl⟩⟩
 
 /-- **Lifting from memory is the spec's `load`, for every type.**  For every WIT type `t` (strings,
 lists — canonical or element-wise —, maps, records, tuples, flags of any size, enums, variants,
